@@ -290,6 +290,12 @@ func (pr *producer) writeMeta(dir string) error {
 		}
 		seen[key] = true
 		r := c.Runs[len(c.Runs)-1]
+		for _, x := range c.Runs { // the run that breaks the property, if any
+			if x.Exit0 || x.Files || x.Trace || x.Timeout || !x.Diag {
+				r = x
+				break
+			}
+		}
 		st.Samples = append(st.Samples, fmt.Sprintf("%s %s %s depth %d (%s) -> %s", c.RuleName, c.Site, c.Position, c.Depth, cfgName(r), outcome(r)))
 	}
 	for _, c := range pr.cases {
